@@ -287,7 +287,9 @@ def compare_case(ui: UnitInfo, rule: str, inp: str, obs: dict, counters: dict):
                 e = per.setdefault(key, [0, 0, 0])
                 e[0] += 1
                 if inv["probes"]:
-                    e[1] += len([p for p in inv["probes"]])
+                    # the rule's own probe is the first one in its body; probes of bodies pulled in with `>` have other ids
+                    own = inv["probes"][0][0]
+                    e[1] += len([p for p in inv["probes"] if p[0] == own])
                 elif inv["children"] > 0 and not inv["cachehit"]:
                     e[2] += 1
         for key, (entries, probes, childeval) in per.items():
